@@ -180,6 +180,16 @@ def gen_history(rng, length, readonly_safe=False, valkeys=None, funcs=3):
         block = [["memoize", f, a, v, None], ["get", f, a], ["memoize", f, a, v, None], ["get", f, a], ["read", f, a], ["get", f, a]]
         at = rng.randrange(len(ops) + 1)
         ops[at:at] = block
+    # aimed block: a call stores under an override key, everything is forgotten, another call stores under the same key, then
+    # the first call's memento (still in the caller's hands) is read: its own bytes or nothing
+    if not readonly_safe and rng.random() < 0.25:
+        f, a = rng.randrange(funcs), rng.randrange(NARGS)
+        f2, a2 = rng.choice([(x, y) for x in range(funcs) for y in range(NARGS) if (x, y) != (f, a)])
+        v1, v2 = rng.sample([v for v in vk if not v.startswith("part") and v != "exc"], 2)
+        block = [["memoize", f, a, v1, "ovr/shared"], ["forget_all"] if rng.random() < 0.6 else ["forget_call", f, a],
+                 ["memoize", f2, a2, v2, "ovr/shared"], ["readheld", f, a], ["read", f2, a2]]
+        at = rng.randrange(len(ops) + 1)
+        ops[at:at] = block
     return ops
 
 
@@ -276,6 +286,7 @@ class Refs:
         self.ah_index = [{h: i for i, h in enumerate(row)} for row in self.ah]
         self.held = {}  # (backend id, f, a) -> memento object handed to the last memoize
         self.older = {}  # (backend id, f, a) -> memento object handed to the memoize before that one
+        self.heldvk, self.oldervk, self.allvk = {}, {}, {}  # ... and which value each of them was handed with
         self.kept = []  # values handed back by reads: the harness holds on to them, like a caller who still uses them
 
     def memento(self, f, a, value):
@@ -317,20 +328,41 @@ def apply_backend(backend, refs, vals, op, model_before=None):
             if not getattr(backend, "read_only", False):  # (a read-only backend skips the write: nothing to read through m)
                 if (id(backend), f, a) in refs.held:
                     refs.older[(id(backend), f, a)] = refs.held[(id(backend), f, a)]
+                    refs.oldervk[(id(backend), f, a)] = refs.heldvk.get((id(backend), f, a))
                 refs.held[(id(backend), f, a)] = m
+                refs.heldvk[(id(backend), f, a)] = vk
+                refs.allvk.setdefault((id(backend), f, a), []).append(vk)
             return None
         if k == "readold":
             m = refs.older.get((id(backend), op[1], op[2]))
             if m is not None:
                 try:
-                    refs.kept.append(backend.read_result(m))
+                    got = backend.read_result(m)
                 except Exception:
-                    pass  # (the earlier value may have been removed since)
+                    return None  # (the earlier value may have been removed since)
+                refs.kept.append(got)
+                # whatever such a memento still reads is what was stored when it was created (a backend without versions
+                # of its own may answer with a later result of the SAME call), never the result of another call
+                vk0 = refs.oldervk.get((id(backend), op[1], op[2]))
+                if vk0 is not None and not any(domain.eq_safe(val(vals, x), got)[0] for x in refs.allvk.get((id(backend), op[1], op[2]), [])):
+                    return ("raise", "StaleMementoRead", "a memento of call %s/%s obtained before the call was memoized again reads %s; "
+                                                         "what was stored when it was created is %s" % (
+                                                             op[1], op[2], domain.describe(got, 80), domain.describe(val(vals, vk0), 80)))
             return None
         if k == "readheld":
             m = refs.held.get((id(backend), op[1], op[2]))
             if m is not None and (model_before is None or (op[1], op[2]) in model_before):
                 return ("value", backend.read_result(m))
+            if m is not None:
+                # the entry was forgotten since: the memento in hand reads what it was created with or nothing at all, never
+                # what another call stored in the meantime (under the same override key, say)
+                try:
+                    got = backend.read_result(m)
+                except Exception:
+                    got = refs  # (nothing)
+                if got is not refs and not any(domain.eq_safe(val(vals, x), got)[0] for x in refs.allvk.get((id(backend), op[1], op[2]), [])):
+                    return ("raise", "StaleMementoRead", "the memento of call %s/%s, forgotten since, reads %s; the call only ever stored %s" % (
+                        op[1], op[2], domain.describe(got, 80), refs.allvk.get((id(backend), op[1], op[2]))))
             k = "read"  # nothing in hand (or the entry was forgotten since): an ordinary read
         if k in ("read", "get"):
             m = backend.get_memento(refs.fwah(op[1], op[2]))
